@@ -185,7 +185,7 @@ pub fn build(p: CP) -> Scenario<Arc<CS>> {
                     let steps = ev.b >> 1;
                     let solo = ev.b & 1 == 1;
                     if solo && ev.depth == 0 && steps > bound {
-                        return Err(format!("C03: a delivery that ran without being switched out took {} own steps (bound from the code: {})", steps, bound));
+                        return Err(format!("C03: a delivery that ran without being switched out took {} own steps (allowed: {}, three times what the code needs)", steps, bound));
                     }
                     h ^= (steps << 8) | (ev.tid as u64);
                     h = h.wrapping_mul(0x100000001b3);
@@ -219,7 +219,9 @@ pub fn scenarios(tier: Tier) -> Vec<Item> {
     //  SignalOnly store + wake                                                        = 2
     //  2 x (channel pointer load + send [2 loads + 2 CAS] + wake)                     = 12
     // flags / conditional shutdown / conditional default use the caller's plain atomics (0).
-    let steps = 8 + 3 + 2 + 14; // (+1 cell access point per channel send)
+    // 27 steps from the code; the check allows three times that, so that a refactoring which adds a
+    // few operations passes while anything that waits or loops does not
+    let steps = 3 * (8 + 3 + 2 + 14);
     let mut v = Vec::new();
     for (mi, mname) in ["registry", "iter_new_add_drop", "scans_and_recv", "instance_drop"].iter().enumerate() {
         for full in [false, true] {
